@@ -14,6 +14,18 @@ use std::collections::BTreeMap;
 use std::sync::atomic::{AtomicU64, Ordering::Relaxed};
 use std::sync::Mutex;
 
+/// Freshness oracle: every request the client ever sends (within one multi-request run, and across
+/// all runs of this check) must carry a nonce not seen before. Returns the nonce if it is a repeat.
+pub fn note_nonce(seen: &Mutex<std::collections::HashSet<Vec<u8>>>, v: Version, req: &[u8]) -> Option<Vec<u8>> {
+    let n = rtref::verifier::request_leaf_and_nonce(v, req).map(|x| x.1)?;
+    let mut g = seen.lock().unwrap();
+    if g.contains(&n) {
+        return Some(n);
+    }
+    g.insert(n);
+    None
+}
+
 pub fn s1() -> Identity {
     Identity::new(0x21, 0x55)
 }
@@ -399,6 +411,7 @@ pub fn run_c01(ctx: &Ctx) -> Result<(), String> {
     let classes: Mutex<BTreeMap<String, u64>> = Mutex::new(BTreeMap::new());
     let failed: Mutex<Option<String>> = Mutex::new(None);
     let pk = s1().lt_pk();
+    let seen_nonces: Mutex<std::collections::HashSet<Vec<u8>>> = Mutex::new(std::collections::HashSet::new());
     let mut baseline = serde_json::Map::new();
     for v in [Version::Classic, Version::Ietf13] {
         // a genuine response recorded in a "previous run" (its request had another nonce)
@@ -437,6 +450,9 @@ pub fn run_c01(ctx: &Ctx) -> Result<(), String> {
                     };
                     evals.fetch_add(1, Relaxed);
                     let req = &out.run.requests[0].0;
+                    if let Some(n) = note_nonce(&seen_nonces, v, req) {
+                        ctx.violation("nonce-not-fresh", "request-nonce", "across-runs", json!({"kind":"client","version":v.name(),"op":op.name(),"nonce":hex(&n),"message":"a request repeats the nonce of an earlier run: a recorded genuine response would be accepted for it"}));
+                    }
                     let truth = authentic(&out.reply, req, v, Some(&pk), CLIENT_VIEW);
                     let cls = format!("{}:{}:{}", op.family(), if out.accepted { "accepted" } else { "rejected" }, match &truth { Ok(_) => "authentic", Err(c) => c });
                     *classes.lock().unwrap().entry(cls).or_insert(0) += 1;
@@ -483,6 +499,12 @@ pub fn run_c01(ctx: &Ctx) -> Result<(), String> {
                 };
                 evals.fetch_add(1, Relaxed);
                 nontrivial.fetch_add(1, Relaxed);
+                for (ri, r) in run.requests.iter().enumerate() {
+                    if let Some(n) = note_nonce(&seen_nonces, v, &r.0) {
+                        ctx.violation("nonce-not-fresh", "request-nonce", "within-run", json!({"kind":"client-multi","version":v.name(),"nreq":nreq,"request_index":ri,"nonce":hex(&n),
+                            "message":"two requests of one multi-request run carry the same nonce: the genuine response to one is accepted for the other"}));
+                    }
+                }
                 // the client processes its sockets in creation order == request arrival order here
                 // (it sends in that order); every printed time must belong to an authentic reply
                 // delivered before the first failing one.
